@@ -341,6 +341,16 @@ def spec(c):
     if fn == "join":
         sep = [",", "", "--"][n % 3]
         return "%s join %s" % (S, render(sep)), sep.join(str(el(x)) for x in xs), "eq"
+    if fn == "join_pieces":
+        # string and bytes pieces, empty ones included (leading, in the middle, trailing), string and bytes separators
+        pieces = ["", "a", "bc", ""]
+        if kind == "bytes":
+            ps = [pieces[x % 4].encode() for x in xs]
+            sep = [b"-", b"", b"ab"][n % 3]
+            return "%s join %s" % (render(ps), render(sep)), sep.join(ps), "eq"
+        ps = [pieces[x % 4] for x in xs]
+        sep = [",", "", "--"][n % 3]
+        return "%s join %s" % (render(ps), render(sep)), sep.join(ps), "eq"
     if fn == "split":
         sep = [",", "ab", "a"][n % 3]
         s = "".join("ab,c"[x % 4] for x in xs)
@@ -349,7 +359,7 @@ def spec(c):
         s = "".join(" a\tb\nc"[x % 6] for x in xs)
         return "words(%s)" % render(s), s.split(), "eq"
     if fn == "lines":
-        s = "".join("a\nb "[x % 4] for x in xs)
+        s = "".join("a\nb \r"[x % 5] for x in xs)     # a carriage return is an ordinary character for `lines`
         parts = s.split("\n")
         if parts and parts[-1] == "":
             parts = parts[:-1]
@@ -390,7 +400,7 @@ TABLE = {
     "group_n": (SEQK, None), "group'": (SEQK, None), "group_all": (["list"], KEYF), "window": (SEQK, None), "prefixes": (SEQK, None),
     "suffixes": (SEQK, None), "frequencies": (ALLK, None), "++": (["list", "vector", "bytes"], None), ".+": (["list"], None),
     "+.": (["list"], None), "..": (["list"], None), ".*": (["list"], None), "*.": (["list"], None), "**": (["list"], None),
-    "**3": (["list"], None), "^^": (["list"], None), "join": (ALLK, None), "split": (["list"], None), "words": (["list"], None),
+    "**3": (["list"], None), "^^": (["list"], None), "join": (ALLK, None), "join_pieces": (["list", "bytes"], None), "split": (["list"], None), "words": (["list"], None),
     "lines": (["list"], None), "permutations": (SEQK, None), "combinations": (SEQK, None), "subsequences": (SEQK, None),
 }
 PRELUDE = ["ls := \\v -> if (v is stream) list(v) else v"]
